@@ -37,6 +37,13 @@ func main() {
 		}
 		return
 	}
+	if len(os.Args) >= 4 && os.Args[1] == "-fixlen" {
+		if err := fixLen(os.Args[2], os.Args[3:]); err != nil {
+			fmt.Fprintln(os.Stderr, err)
+			os.Exit(1)
+		}
+		return
+	}
 	if len(os.Args) >= 4 && os.Args[1] == "-fixrange" {
 		if err := fixRange(os.Args[2], os.Args[3:]); err != nil {
 			fmt.Fprintln(os.Stderr, err)
@@ -338,6 +345,50 @@ func fixRange(path string, lines []string) error {
 	}
 	if done == 0 {
 		return fmt.Errorf("%s: no range statement at lines %v", path, lines)
+	}
+	var buf bytes.Buffer
+	if err := format.Node(&buf, fset, f); err != nil {
+		return err
+	}
+	return os.WriteFile(path, buf.Bytes(), 0o644)
+}
+
+// fixLen: len(ch) / cap(ch) on a channel, discovered like range over a channel by the compiler's
+// complaint about the rewritten file; positions are line:col of the argument.
+func fixLen(path string, poss []string) error {
+	want := map[string]bool{}
+	for _, p := range poss {
+		want[p] = true
+	}
+	fset := token.NewFileSet()
+	f, err := parser.ParseFile(fset, path, nil, parser.ParseComments)
+	if err != nil {
+		return err
+	}
+	done := 0
+	astutil.Apply(f, nil, func(c *astutil.Cursor) bool {
+		n, ok := c.Node().(*ast.CallExpr)
+		if !ok || len(n.Args) != 1 {
+			return true
+		}
+		id, ok := n.Fun.(*ast.Ident)
+		if !ok || (id.Name != "len" && id.Name != "cap") {
+			return true
+		}
+		pos := fset.Position(n.Args[0].Pos())
+		if !want[fmt.Sprintf("%d:%d", pos.Line, pos.Column)] {
+			return true
+		}
+		m := "Len"
+		if id.Name == "cap" {
+			m = "Cap"
+		}
+		c.Replace(call(&ast.SelectorExpr{X: n.Args[0], Sel: ast.NewIdent(m)}))
+		done++
+		return true
+	})
+	if done == 0 {
+		return fmt.Errorf("%s: no len/cap call at %v", path, poss)
 	}
 	var buf bytes.Buffer
 	if err := format.Node(&buf, fset, f); err != nil {
